@@ -362,6 +362,7 @@ func (w *world) simulate(choices []int) {
 
 	if autoFlavour {
 		kernel.EnableAuto()
+		kernel.SetSelectSeed(cfg.Strat.Seed)
 	}
 	k := kernel.New(cfg.Strat.build(), choices, w.replay)
 	w.k = k
@@ -1066,6 +1067,10 @@ func (w *world) finish() {
 	w.res.Tags["outcome"] = w.res.Outcome
 	if strings.HasPrefix(cfg.TargetNote, "marathon") {
 		w.probes["marathon_cancelled_after_16k_batches"] = 1
+		w.res.Tags["special"] = "marathon"
+	}
+	if cfg.Crowd > 1 {
+		w.res.Tags["special"] = "crowd"
 	}
 	// non-trivial: at least two different actors interleaved and a find or a fault occurred
 	w.res.Nontriv = w.res.Switches >= 2 && (len(w.found) > 0 || w.cancelDelivered)
